@@ -8,10 +8,14 @@ import common as C
 what = sys.argv[1] if len(sys.argv) > 1 else "all"
 rc = 0
 if what in ("all", "coq"):
-    r, out, secs = C.coq_make([])
+    # build everything that builds (-k): a check rebuilds and audits exactly the targets it needs,
+    # so one broken file must not take the other properties down with it
+    C.coq_makefile()
+    r, out, secs = C.sh(["timeout", "3000", "make", "-k", "-j%d" % C.NPROC], cwd=C.COQ, timeout=3100)
     print(out[-3000:])
     print("coq build: rc=%d %.0fs" % (r, secs))
-    rc |= r
+    core = all(os.path.exists(os.path.join(C.COQ, "theories", f + ".vo")) for f in ("Num", "Poly", "Msg", "Eval", "Tree"))
+    rc |= 0 if core else 1
 if what in ("all", "harness"):
     ok, out, secs = C.build_harness()
     print(out[-3000:])
